@@ -25,6 +25,7 @@ CHECK = {
     "parts": [
         {"name": "subsets_exact", "bin": "c15_voronoi", "args": ["--mode", "subsets_exact"], "quick_share": 1, "thorough_share": 2},
         {"name": "subsets_perturbed", "bin": "c15_voronoi", "args": ["--mode", "subsets_perturbed"], "quick_share": 1, "thorough_share": 3},
+        {"name": "near_degenerate", "bin": "c15_voronoi", "args": ["--mode", "near_degenerate"], "quick_share": 1, "thorough_share": 6},
         {"name": "families", "bin": "c15_voronoi", "args": ["--mode", "families"], "quick_share": 2, "thorough_share": 4},
         {"name": "threads", "bin": "c15_voronoi_omp", "args": ["--mode", "threads"], "quick_share": 2, "thorough_share": 3,
          "env": {"OMP_NUM_THREADS": "4"}},
